@@ -129,6 +129,31 @@ def _gates(tier):
     qz[104] = 1  # zstd
     yield dict(name="qcow2.zstd_without_module", kind="single", seed_ok=lambda: _open_qcow2(_seed_qcow2()),
                fault=lambda: _open_qcow2(bytes(qz)))
+    # incompatible-feature bits nobody has defined (qcow2.txt: "an implementation must fail to open an image if an unknown
+    # bit is set"): bits 0 (dirty) and 1 (corrupt) only concern writers, 2 / 3 / 4 have gates of their own
+    def q_incompat(bits):
+        b = bytearray(q)
+        v, = struct.unpack_from(">Q", b, 72)
+        for bit in bits:
+            v |= 1 << bit
+        struct.pack_into(">Q", b, 72, v)
+        return _open_qcow2(bytes(b))
+
+    yield dict(name="qcow2.incompatible_features.unknown_bit", kind="multi", seed_ok=lambda: q_incompat([0, 1]),
+               faults=[(f"bit{k}", (lambda k=k: q_incompat([k]))) for k in range(5, 64)]
+               + [("bit5+bit0", lambda: q_incompat([0, 5])), ("all-unknown", lambda: q_incompat(list(range(5, 64))))])
+    # compression methods other than 0 (deflate) and 1 (zstd): the field only exists behind byte 104 and counts when bit 3 is set
+    def q_comp(ctype):
+        b = bytearray(BQ.build(["N", "N", "C"], [0, 1, None], 12, 3)[0].tobytes())
+        hl, = struct.unpack_from(">I", b, 100)
+        assert hl >= 112, hl
+        struct.pack_into(">Q", b, 72, 8 if ctype else 0)
+        b[104] = ctype
+        q_ = __import__("dissect.hypervisor.disk.qcow2", fromlist=["QCow2"]).QCow2(io.BytesIO(bytes(b)))
+        return q_.read(512)  # clusters 0 and 1 (one stream buffer) are not compressed
+
+    yield dict(name="qcow2.compression_type", kind="multi", seed_ok=lambda: q_comp(0),
+               faults=[(f"type{t}", (lambda t=t: q_comp(t))) for t in list(range(2, 17)) + [0x80, 0xFE, 0xFF]])
     # ---- VHDX (sparse + patches)
     vimg = _seed_vhdx()
     fields = {f[0]: f for f in vimg.fields}
@@ -142,6 +167,23 @@ def _gates(tier):
                        ("vhdx.region_guid.metadata", fields["regi1.entry0.guid"][1], 16),
                        ("vhdx.region_guid.bat", fields["regi1.entry1.guid"][1], 16)):
         yield dict(name=nm, kind="magic", sparse=vimg, off=off, width=w, open_patched=vopen)
+    # the format version of the current header ([MS-VHDX] 2.2.2: must be 1, otherwise the file must not be parsed as VHDX)
+    cur = "header1" if struct.unpack("<Q", vimg.sparse(log=False).peek_at(fields["header1.sequence"][1], 8))[0] > struct.unpack(
+        "<Q", vimg.sparse(log=False).peek_at(fields["header2.sequence"][1], 8))[0] else "header2"
+    yield dict(name="vhdx.header_version", kind="numeric", sparse=vimg, off=fields[cur + ".version"][1], width=2, endian="<",
+               accepted=lambda v: v == 1, open_patched=vopen)
+    # a region nobody knows: ignored when optional, the file is unsupported when the entry says Required
+    def vhdx_region(required):
+        sp = vimg.sparse(log=False)
+        patches = {}
+        for n in ("regi1", "regi2"):
+            base = fields[n + ".signature"][1]
+            cnt, = struct.unpack("<I", sp.peek_at(base + 8, 4))
+            patches[base + 8] = struct.pack("<I", cnt + 1)
+            patches[base + 16 + 32 * cnt] = bytes(range(0xA0, 0xB0)) + struct.pack("<QII", 0x300000, 0x100000, required)
+        return vopen(patches)
+
+    yield dict(name="vhdx.unknown_required_region", kind="single", seed_ok=lambda: vhdx_region(0), fault=lambda: vhdx_region(1))
     for i in range(5):
         yield dict(name=f"vhdx.metadata_item_guid[{i}]", kind="magic", sparse=vimg, off=fields[f"meta.entry{i}.id"][1], width=16,
                    open_patched=vopen, thin=4)
@@ -184,6 +226,9 @@ def _gates(tier):
         return VDI(io.BytesIO(raw)).read(512)
 
     yield dict(name="vdi.signature", kind="magic", raw=v, off=64, width=4, open=open_vdi)
+    # header version: 1.1 is the only layout this reader knows (a 0.1 header has its fields elsewhere)
+    yield dict(name="vdi.version", kind="numeric", raw=v, off=68, width=4, endian="<", accepted=lambda x: x == 0x00010001,
+               open=open_vdi, extra_values=[0x00000001, 0x00010000, 0x00010002, 0x00020001, 0x00010101, 0x01010001])
     h = BH.build_hds([DATA, HOLE], [1, None], 8, 2).tobytes()
 
     def open_hds(raw):
@@ -204,6 +249,12 @@ def _gates(tier):
     for kind, magic_w in (("SPARSE", 4), ("VMFSSPARSE", 4), ("SESPARSE", 8)):
         yield dict(name=f"vmdk.extent_magic.{kind}", kind="magic", raw=_vmdk_extent(kind), off=0, width=magic_w,
                    open=lambda raw, kind=kind: _open_vmdk_desc(raw, kind))
+    # extent kinds the grammar accepts but the reader cannot map (raw device mappings): the disk must not be served without them
+    for kind in ("VMFSRDM", "VMFSRAW"):
+        yield dict(name=f"vmdk.extent_type.{kind}", kind="single", seed_ok=lambda: _open_vmdk_kinds(["FLAT", "FLAT"]),
+                   fault=lambda kind=kind: _open_vmdk_kinds(["FLAT", kind]))
+        yield dict(name=f"vmdk.extent_type.{kind}.first", kind="single", seed_ok=lambda: _open_vmdk_kinds(["FLAT", "FLAT"]),
+                   fault=lambda kind=kind: _open_vmdk_kinds([kind, "FLAT"]))
     fimg = BM.build_hosted([DATA, HOLE], [0, None], 8, 512, 16, footer=True, compressed=True, stride=10)
     fraw = fimg.tobytes()
     foff = [f for f in fimg.fields if f[0] == "footer.magic"][0][1]
@@ -314,6 +365,9 @@ def _gates(tier):
     yield dict(name="keysafe.identifier", kind="text", value="vmware:key", others=[], open_text=lambda s: _open_keysafe(ident=s))
     yield dict(name="keysafe.locator_kind", kind="text", value="phrase", others=[], open_text=lambda s: _open_keysafe(kind=s),
                extra_values=["rawkey", "ldap", "script", "role", "fqid"])
+    # a list whose members are not pairs (a bare phrase locator): nothing in it can be unsealed
+    yield dict(name="keysafe.list_of_non_pairs", kind="single", seed_ok=lambda: _open_keysafe(),
+               fault=lambda: _open_keysafe(bare=True, unlock=False))
     yield dict(name="keysafe.mac", kind="text", value="HMAC-SHA-1", others=["HMAC-SHA-1-128", "HMAC-SHA-256"],
                open_text=lambda s: _open_keysafe(mac=s), rebuild=True)
     yield dict(name="keysafe.cipher", kind="text", value="AES-256", others=["AES-128", "AES-192"],
@@ -372,6 +426,26 @@ def _open_vmdk_desc(raw, kind):
             f.write(raw)
         with open(os.path.join(d, "disk.vmdk"), "w") as f:
             f.write(BM.descriptor_text("custom", [("RW", 16, kind, "e.vmdk", None)]))
+        v = VMDK(Path(d) / "disk.vmdk")
+        try:
+            return v.read(512)
+        finally:
+            for dsk in v.disks:
+                dsk.fh.close()
+
+
+def _open_vmdk_kinds(kinds):
+    from dissect.hypervisor.disk.vmdk import VMDK
+
+    from mc.builders import vmdk as BM
+
+    with scratch_dir() as d:
+        ext = []
+        for i, kind in enumerate(kinds):
+            BM.build_flat(16, layer=i + 1).write_to(os.path.join(d, f"e{i}.vmdk"))
+            ext.append(("RW", 16, kind, f"e{i}.vmdk", 0 if kind in ("FLAT", "VMFS") else None))
+        with open(os.path.join(d, "disk.vmdk"), "w") as f:
+            f.write(BM.descriptor_text("custom", ext))
         v = VMDK(Path(d) / "disk.vmdk")
         try:
             return v.read(512)
@@ -441,7 +515,8 @@ def _open_keystore(mode, missing=False):
     return KeyStore.from_text(text).key
 
 
-def _open_keysafe(ident="vmware:key", kind="phrase", mac="HMAC-SHA-1", cipher="AES-256", kdf="PBKDF2-HMAC-SHA-1"):
+def _open_keysafe(ident="vmware:key", kind="phrase", mac="HMAC-SHA-1", cipher="AES-256", kdf="PBKDF2-HMAC-SHA-1", bare=False,
+                  unlock=True):
     from dissect.hypervisor.descriptor.vmx import VMX
 
     from mc.builders import vmxenc as BV
@@ -463,7 +538,17 @@ def _open_keysafe(ident="vmware:key", kind="phrase", mac="HMAC-SHA-1", cipher="A
     if kind != "phrase":
         pair = pair.replace("pair/(phrase/", f"pair/({kind}/")
     data = BV.seal(dk, b'a = "b"\nmemsize = "1"', vmac, BV.det_bytes("iv2", 16))
+    if bare:
+        # list/(phrase/...) instead of list/(pair/(phrase/...,mac,blob))
+        inner = pair[len("pair/("):]
+        pair = inner[:inner.index(",")]
+        assert pair.startswith("phrase/"), pair
     text = BV.vmx_text([pair], data).replace("vmware:key/list", ident + "/list")
+    if not unlock:
+        from dissect.hypervisor.descriptor.vmx import KeySafe
+
+        v = VMX.parse(text)
+        return KeySafe.from_text(v.attr["encryption.keysafe"])
     v = VMX.parse(text)
     v.unlock_with_phrase("pw")
     return v.attr["a"]
@@ -553,6 +638,15 @@ def run_case(case, ctx):
         if not attempt(gate["seed_ok"], "seed", False):
             return
         attempt(gate["fault"], "fault", True)
+        return
+    if kind == "multi":
+        if not attempt(gate["seed_ok"], "seed", False):
+            return
+        for desc, fn in gate["faults"]:
+            if only is not None and only != desc:
+                continue
+            if not attempt(fn, desc, True):
+                return
         return
     if kind in ("magic", "numeric"):
         if "sparse" in gate:
